@@ -242,8 +242,14 @@ class SoftwareSwitchBase (object):
     ofp_type = msg.header_type
     h = self.ofp_handlers.get(ofp_type)
     if h is None:
-      raise RuntimeError("No handler for ofp_type %s(%d)"
-                         % (ofp_type_map.get(ofp_type), ofp_type))
+      # Something only a switch sends (or an error, which we never answer
+      # with another error)
+      self.log.warn("No handler for ofp_type %s(%d)",
+                    ofp_type_map.get(ofp_type), ofp_type)
+      if ofp_type != OFPT_ERROR:
+        self.send_error(type=OFPET_BAD_REQUEST, code=OFPBRC_BAD_TYPE,
+                        ofp=msg, connection=connection)
+      return
 
     self.log.debug("Got %s with XID %s",ofp_type_map.get(ofp_type),msg.xid)
     h(msg, connection=connection)
